@@ -250,6 +250,9 @@ CLS = {1: 'RequestForbidden', 2: 'OverRestrictive', 3: 'ActiveRulesDiffer', 4: '
 def run(chk):
     quick = chk.tier == 'quick'
     rng = random.Random(chk.seed)
+    # ---- 0. FTP crawls (FtpScope.tla; own fork pool: must start before any thread exists in this process)
+    from drivers import scope_ftp
+    scope_ftp.run(chk)
     # ---- 1. design check
     res = tlc.run_tlc('ScopeCheck', 'SPECIFICATION Spec\nCONSTANT Small = %s\nINVARIANT WaiverNarrow\n'
                       'INVARIANT RequestPassesRules\nINVARIANT NoRedirectNoWaiver\nINVARIANT StartPasses\n'
@@ -323,5 +326,8 @@ def run(chk):
 
 def replay(chk, path):
     rp = json.load(open(path))['replay']
+    if isinstance(rp, dict) and 'scenario' in rp and 'tree' in json.dumps(rp['scenario'])[:4000]:
+        from drivers import scope_ftp
+        return scope_ftp.replay(chk, path)
     print(json.dumps(rp, indent=1)[:3000])
     return 0
